@@ -86,6 +86,8 @@ def main(tier, seed, replay=None):
             idx = [t.idx for t in s.tokens if t.cls in core.SLASHY]
             if not idx:
                 continue
+            if tier != 'quick' and hash(s.key()) % 4 != seed % 4:
+                continue        # (thorough themes are ~15 times larger)
             n += 1
             distinct.add(s.key())
             variants = 2 if tier == 'quick' else 3
